@@ -46,7 +46,9 @@ func rescale(p *curve.EdwardsPoint, rng *rand.Rand) *curve.EdwardsPoint {
 	return curve.VerifFromCoords(&x, &y, &z, &t)
 }
 
-func ristFromEd(p *curve.EdwardsPoint) *curve.RistrettoPoint { return curve.VerifRistrettoFromEdwards(p) }
+func ristFromEd(p *curve.EdwardsPoint) *curve.RistrettoPoint {
+	return curve.VerifRistrettoFromEdwards(p)
+}
 
 func graftSingle(x *ctx, rng *rand.Rand, e gen.KP, lp *curve.EdwardsPoint, s, s2 *big.Int, sc, sc2 *scalar.Scalar, w1, w2, w3 ref.Pt, d func() string) {
 	x.try("internal/edwardsMulGeneric", func() *curve.EdwardsPoint { return curve.VerifMulGeneric(curve.NewEdwardsPoint(), lp, sc) }, w1, d)
